@@ -445,6 +445,15 @@ func init() {
 				for _, m := range gen.TokenMutants(tm[k%len(tm)]) {
 					docs = append(docs, m)
 				}
+				// valid texts with raw multi-byte characters (the copy routine rewrites U+2028/9 when HTML
+				// escaping is on, and steps over the others)
+				if k < 4 {
+					ls, ps := string(rune(0x2028)), string(rune(0x2029))
+					for _, t := range []string{`"a` + ls + `b"`, `"` + ps + `"`, `"` + ls + ps + ls + `"`, `{"k` + ps + `":"v` + ls + `"}`, `["é","😀","` + ls + `x",{"` + ls + `":[1,"y` + ps + `"]}]`,
+						`"<` + ls + `>&é` + ps + `"`, `"€` + ls + `"`, `"x` + ls} {
+						docs = append(docs, []byte(t))
+					}
+				}
 				sub := 0
 				for _, d := range docs {
 					valid := oracle.Recognise(d, 0)
@@ -459,6 +468,29 @@ func init() {
 						c03Check(c, sub, x, reflect.TypeOf(x), "val:marshaler-output", isASCII(d), must, entries[:2])
 						c03Check(c, sub, []zoo.MRaw{x}, reflect.TypeOf(x), "val:marshaler-output", isASCII(d), must, entries[2:3])
 						c03Check(c, sub, map[string]any{"k": x}, reflect.TypeOf(x), "val:marshaler-output", isASCII(d), must, entries[10:11])
+						if valid && utf8.Valid(d) {
+							// a valid text handed over by a marshaler comes out as the same value, and as
+							// valid UTF-8, whatever is done to its spelling on the way
+							want, _ := oracle.Parse(d)
+							for ei, f := range []func() ([]byte, error){
+								func() ([]byte, error) { return gojson.Marshal(x) },
+								func() ([]byte, error) { return gojson.MarshalIndent(x, "", " ") },
+								func() ([]byte, error) { return gojson.MarshalWithOption(x, gojson.DisableHTMLEscape()) },
+								func() ([]byte, error) { return gojson.MarshalNoEscape(x) },
+							} {
+								var out []byte
+								var err error
+								if pan, _, _ := rt.Guard(func() { out, err = f() }); pan || err != nil {
+									continue // verdicts are judged above
+								}
+								c.Eval(1)
+								got, perr := oracle.Parse(out)
+								if !utf8.Valid(out) || perr != nil || want == nil || !oracle.Equal(got, want) {
+									c.Violate(rt.Violation{Monitor: "enc-wellformed", Entry: []string{"Marshal", "MarshalIndent", "MarshalWithOption(DisableHTMLEscape)", "MarshalNoEscape"}[ei], Kind: "marshaler-output-changed",
+										Ctx: "valid-utf8=" + fmt.Sprint(utf8.Valid(out)) + " @ feature:val:marshaler-output", Detail: "MarshalJSON returned " + rt.Q(d) + ", the encoder wrote " + rt.Q(out), Sub: sub})
+								}
+							}
+						}
 						// MarshalText output is arbitrary text and must always be escaped into a valid string
 						tx := zoo.TRaw{B: d}
 						c03Check(c, sub, tx, reflect.TypeOf(tx), "val:marshaltext-output", false, "", entries[:2])
